@@ -57,6 +57,27 @@ func vfCheckConfig(rep *verifkit.Report, cfg *conformancev1.Config) {
 		return m
 	}
 	mustErr := contradiction != "" || len(want) == 0
+	entryWhy := ""
+	if contradiction == "" {
+		ff0 := cfg.GetFeatures()
+		if ff0 == nil {
+			ff0 = &conformancev1.Features{}
+		}
+		if feat0, why0 := vfResolve(ff0); why0 == "" {
+			for _, e := range append(append([]*conformancev1.ConfigCase{}, cfg.IncludeCases...), cfg.ExcludeCases...) {
+				if entryWhy = vfEntryContradiction(feat0, e); entryWhy != "" {
+					break
+				}
+			}
+		}
+	}
+	if entryWhy != "" {
+		rep.Count("contradictory_entries", 1)
+		if perr == nil {
+			rep.Violation("config/contradictory-entry-accepted/"+entryWhy, fmt.Sprintf("an include/exclude entry that is impossible in its version scope (%s) was accepted (it resolves to nothing)", entryWhy), w(nil))
+			return
+		}
+	}
 	switch {
 	case perr != nil && mustErr:
 		rep.Count("agree_error", 1)
